@@ -19,7 +19,7 @@ def run(args):
     else:
         cases, metas = ctx.run_harness("c03", extra=[ctx.scratch], timeout=3400)
         ctx.evaluations = len(cases)
-        by = {k: [c for c in cases if c[0].startswith(f"c03 {k} ")] for k in ("base", "expr", "stmt", "scope", "match", "call", "adopt")}
+        by = {k: [c for c in cases if c[0].startswith(f"c03 {k} ")] for k in ("base", "expr", "stmt", "scope", "match", "call", "defaults", "adopt")}
         usable = lambda cs: [(r, o.split(" ")[0]) for r, o in cs if not o.startswith("edit-unparsable")]  # noqa: E731
         for k, label in (("base", "base programs of the corpus are accepted"),
                          ("expr", "model traversal (no role skipped) = real checker: an unknown name at every expression position of the corpus and of the repository's programs is rejected at that position"),
@@ -27,11 +27,12 @@ def run(args):
                          ("scope", "model checkAssign / lookup_in_function = real checker on bindings at depth bd re-assigned at depth d through every nesting construct"),
                          ("match", "model missingVariants = real non-exhaustive-match verdict and the variants it names"),
                          ("call", "model validateArgs / surplusArgs / missingParams = the arguments and parameters the real checker reports (type mismatch, too many, unknown keyword, missing) on function and method calls with positional and keyword arguments"),
+                         ("defaults", "model defaultErrors = the parameters whose default value the real checker reports as ill-typed (function and method declarations)"),
                          ("adopt", "model conformance = the trait-adoption diagnostics of the real checker (missing / wrongly typed @requires fields, missing / differently signed required methods) for classes, models and classes inheriting members")):
             cs = usable(by[k]) if k in ("expr", "stmt") else by[k]
             m = ctx.run_driver([c[0] for c in cs])
             ctx.tie(label, cs, m)
-        hist = {"expr_located": 0, "expr_skipped_unparsable": 0, "stmt_located": 0, "roles": {}, "rules": {}, "scope": {}, "match": {}, "call": {}, "adopt": {}}
+        hist = {"expr_located": 0, "expr_skipped_unparsable": 0, "stmt_located": 0, "roles": {}, "rules": {}, "scope": {}, "match": {}, "call": {}, "defaults": {}, "adopt": {}}
         for req, real in by["base"]:
             if real != "accepted":
                 failures.append({"request": req, "real": real, "why": "a base program of the corpus is not accepted: its edits would prove nothing"})
@@ -90,6 +91,13 @@ def run(args):
             hist["call"][f"{kind}:{real.split(' ')[0]}"] = hist["call"].get(f"{kind}:{real.split(' ')[0]}", 0) + 1
             if real != exp:
                 failures.append({"request": req, "real": real, "expected": exp, "why": "every argument of a type its parameter does not accept must be reported at that argument, a surplus positional or unknown keyword argument on that argument, every parameter left without argument and default on the call, and nothing else"})
+        for req, real in by["defaults"]:
+            p = req.split(" ")
+            ctx.nontrivial.add(req)
+            exp = "accepted" if p[-1] == "-" else f"flag {p[-1]}"
+            hist["defaults"][f"{p[2]}:{real.split(' ')[0]}"] = hist["defaults"].get(f"{p[2]}:{real.split(' ')[0]}", 0) + 1
+            if real != exp:
+                failures.append({"request": req, "real": real, "expected": exp, "why": "a default value of a type its parameter does not accept must be reported at that default value, and nothing else"})
         for req, real in by["adopt"]:
             p = req.split(" ")
             ctx.nontrivial.add(req)
@@ -103,5 +111,5 @@ def run(args):
         ctx.coverage_extra = {"histogram": hist, "harness_meta": metas, "oracle_failures": len(failures)}
     ctx.conclude_broken_obligations(failures)
     return ctx.finish(
-        rule="single local edits of accepted programs: (a) every expression position found by an independent AST walker (73 roles: conditions of if/elif/while, loop iterables, match subjects/guards/arm bodies, call and method arguments, constructor fields, comprehension parts, closure bodies, index/slice parts, tuple/list/dict/set elements, field defaults …) in the two corpus programs and in every example / fixture / snapshot source of the repository replaced by an unknown name; (b) 26 rule-violating statements (`?` and unknown names inside closures and comprehensions, field assignment through an immutable binding, unknown name, wrong-typed assignment / return / argument, too few / too many / unknown keyword arguments, bare `return` in a function returning a value, a `mut self` method called on an immutable binding, re-assignment and compound assignment of an immutable, `?` on a non-Result and in a non-Result function, match missing an Option / enum variant, constructor with missing / unknown / duplicate field, unknown name inside an f-string) inserted at the head of every statement list (function, method of model/class/trait/newtype, then/elif/else, while, for, match arm block); (c) binding depth × assignment depth × mutability × seven forms (plain, let, mut, compound assignment, `mut self` method call, field assignment, index assignment) through six nesting constructs; (d) random matches over enum/Option/Result (variant names related by prefix / suffix / case); (e) function and method calls with 1-4 parameters of primitive / collection / model / class / trait type, positional and keyword arguments, 0-2 of them of a type the parameter does not accept, defaults on trailing parameters, arguments dropped / a surplus positional / an unknown keyword; (f) generated traits (0-2 @requires fields, 1-3 required / default methods) adopted by a class, a model or a class inheriting half of its members, each required member present / absent / of another type or signature; distinct = (file, role/block, rule, index)",
+        rule="single local edits of accepted programs: (a) every expression position found by an independent AST walker (73 roles: conditions of if/elif/while, loop iterables, match subjects/guards/arm bodies, call and method arguments, constructor fields, comprehension parts, closure bodies, index/slice parts, tuple/list/dict/set elements, field defaults …) in the two corpus programs and in every example / fixture / snapshot source of the repository replaced by an unknown name; (b) 26 rule-violating statements (`?` and unknown names inside closures and comprehensions, field assignment through an immutable binding, unknown name, wrong-typed assignment / return / argument, too few / too many / unknown keyword arguments, bare `return` in a function returning a value, a `mut self` method called on an immutable binding, re-assignment and compound assignment of an immutable, `?` on a non-Result and in a non-Result function, match missing an Option / enum variant, constructor with missing / unknown / duplicate field, unknown name inside an f-string) inserted at the head of every statement list (function, method of model/class/trait/newtype, then/elif/else, while, for, match arm block); (c) binding depth × assignment depth × mutability × seven forms (plain, let, mut, compound assignment, `mut self` method call, field assignment, index assignment) through six nesting constructs; (d) random matches over enum/Option/Result (variant names related by prefix / suffix / case); (e) function and method calls with 1-4 parameters of primitive / collection / model / class / trait type, positional and keyword arguments, 0-2 of them of a type the parameter does not accept, defaults on trailing parameters, arguments dropped / a surplus positional / an unknown keyword; (e2) function and method declarations whose parameters carry defaults of their own or of another type; (f) generated traits (0-2 @requires fields, 1-3 required / default methods) adopted by a class, a model or a class inheriting half of its members, each required member present / absent / of another type or signature; distinct = (file, role/block, rule, index)",
         extra_cov=getattr(ctx, "coverage_extra", None))
